@@ -355,3 +355,166 @@ Print Assumptions C05_block_split_even_refuted.
 Print Assumptions C05_evolve_block_shape.
 Print Assumptions C05_evolve2d_block_shape.
 Print Assumptions C05_evolve_dynamic_extends.
+
+(* ================================================================== the array operations, over an explicit heap
+   Model/HeapEngine.v models what the engines DO with arrays: allocate the work array (fresh id), copy the
+   caller's last row into it, write every new row into it, and finally allocate the result, whose prefix is
+   READ from the caller's id in the heap as the steps left it (dynamic form: a list of row references whose
+   first element is a view into the caller's object; the predicate receives a fresh copy).  The step may
+   read and write the heap.  Two aliasing engines are separate models (heap_evolve_inplace,
+   heap_evolve_returns_view), so the statements below are not true by construction.
+   W is the set of objects the step (the predicate) may write to: objects that existed before the call,
+   other than the caller's array.  h_get h id is the contents of object id. *)
+From CPL Require Import Model.HeapEngine Proofs.HeapEngineProofs.
+
+Theorem C05_heap_input_unchanged :
+  forall (X C : Type) (dflt : C) (step : X -> heap C -> C -> nat -> X * heap C * C) (W : nat -> Prop)
+         (h0 : heap C) (ca : nat),
+  ca < length h0 -> ~ W ca -> (forall id, W id -> id < length h0) ->
+  step_writes_only step W ->
+  forall k x0 x hr rid,
+  heap_evolve_fixed dflt step h0 ca x0 (S k) = Ok (x, hr, rid) ->
+  exists rows, length rows = k /\
+    h_get hr rid = h_get h0 ca ++ rows /\          (* the result holds the given rows, then T-1 new ones *)
+    h_get hr ca = h_get h0 ca /\                   (* the caller's object is unchanged *)
+    rid = S (length h0) /\                         (* the result is a new object: not an id of the initial heap *)
+    (forall id, id < length h0 -> ~ W id -> h_get hr id = h_get h0 id).
+Proof. intros X C dflt step W h0 ca. exact (heap_fixed_frame X C dflt step W h0 ca). Qed.
+
+Theorem C05_heap_input_unchanged_dynamic :
+  forall (X P C : Type) (dflt : C) (step : X -> heap C -> C -> nat -> X * heap C * C)
+         (pred : P -> heap C -> nat -> nat -> P * heap C * bool) (W : nat -> Prop) (h0 : heap C) (ca : nat),
+  ca < length h0 -> ~ W ca -> (forall id, W id -> id < length h0) ->
+  step_writes_only step W -> pred_writes_only pred W ->
+  forall fuel p0 x0 p x hr rid plog,
+  h_get h0 ca <> [] ->
+  heap_evolve_dynamic dflt step pred fuel h0 ca p0 x0 = Some (p, x, hr, rid, plog) ->
+  exists rows, length rows = length plog - 1 /\
+    h_get hr rid = h_get h0 ca ++ rows /\
+    h_get hr ca = h_get h0 ca /\
+    length h0 <= rid /\ rid <> ca /\
+    (forall id, id < length h0 -> ~ W id -> h_get hr id = h_get h0 id).
+Proof. intros X P C dflt step pred W h0 ca. exact (heap_dynamic_frame X P C dflt step pred W h0 ca). Qed.
+
+(* steps that get values (lift_step): the heap engine computes exactly Engine.evolve_fixed, in a heap that is the
+   initial one plus the work array and the result - so every theorem above about evolve_fixed transfers *)
+Theorem C05_heap_refines_engine :
+  forall (X C : Type) (dflt : C) (ps : X -> C -> nat -> X * C) (h0 : heap C) (ca : nat),
+  ca < length h0 ->
+  forall x0 T,
+  match evolve_fixed dflt ps x0 (h_get h0 ca) T with
+  | Ok (x', out) => exists w, heap_evolve_fixed dflt (lift_step ps) h0 ca x0 T = Ok (x', h0 ++ [w; out], S (length h0))
+  | Raise e => heap_evolve_fixed dflt (lift_step ps) h0 ca x0 T = Raise e
+  end.
+Proof. intros X C dflt ps h0 ca. exact (heap_fixed_refines X C dflt ps h0 ca). Qed.
+
+Theorem C05_heap_refines_engine_dynamic :
+  forall (X P C : Type) (dflt : C) (ps : X -> C -> nat -> X * C) (pp : P -> list C -> nat -> P * bool)
+         (h0 : heap C) (ca : nat),
+  ca < length h0 ->
+  forall fuel p0 x0, h_get h0 ca <> [] ->
+  match evolve_dynamic dflt ps pp fuel p0 x0 (h_get h0 ca) with
+  | Some (p, x, out, plog) =>
+      exists hr rid, heap_evolve_dynamic dflt (lift_step ps) (lift_pred pp) fuel h0 ca p0 x0 = Some (p, x, hr, rid, plog) /\
+                     h_get hr rid = out /\ h_get hr ca = h_get h0 ca /\ length h0 <= rid
+  | None => heap_evolve_dynamic dflt (lift_step ps) (lift_pred pp) fuel h0 ca p0 x0 = None
+  end.
+Proof. intros X P C dflt ps pp h0 ca. exact (heap_dynamic_refines X P C dflt ps pp h0 ca). Qed.
+
+(* the engines of this development hand their rules values (copies), not references *)
+Theorem C05_heap_plain_1d :
+  forall (St : Type) (rule : rule1 St) (store : Z -> Z) (r : nat) (h0 : heap (list Z)) (ca : nat),
+  ca < length h0 ->
+  step_writes_only (lift_step (step_plain rule store r)) (fun _ => False) /\
+  forall s0 T,
+  match evolve_plain rule store r s0 (h_get h0 ca) T with
+  | Ok (s', out) => exists w, heap_evolve_fixed [] (lift_step (step_plain rule store r)) h0 ca s0 T
+                              = Ok (s', h0 ++ [w; out], S (length h0))
+  | Raise e => heap_evolve_fixed [] (lift_step (step_plain rule store r)) h0 ca s0 T = Raise e
+  end.
+Proof.
+  intros St rule store r h0 ca Hca. split; [apply lift_step_writes_nothing|].
+  exact (heap_fixed_refines St (list Z) [] (step_plain rule store r) h0 ca Hca).
+Qed.
+
+Theorem C05_heap_plain_2d :
+  forall (St : Type) (rule : rule2 St) (store : Z -> Z) (r : nat) (ty : nbhd_type) (h0 : heap grid) (ca : nat),
+  ca < length h0 ->
+  step_writes_only (lift_step (step_plain2d rule store r ty)) (fun _ => False) /\
+  forall s0 T,
+  match evolve2d_plain rule store r ty s0 (h_get h0 ca) T with
+  | Ok (s', out) => exists w, heap_evolve_fixed [] (lift_step (step_plain2d rule store r ty)) h0 ca s0 T
+                              = Ok (s', h0 ++ [w; out], S (length h0))
+  | Raise e => heap_evolve_fixed [] (lift_step (step_plain2d rule store r ty)) h0 ca s0 T = Raise e
+  end.
+Proof.
+  intros St rule store r ty h0 ca Hca. split; [apply lift_step_writes_nothing|].
+  exact (heap_fixed_refines St grid [] (step_plain2d rule store r ty) h0 ca Hca).
+Qed.
+
+Theorem C05_heap_block_steps :
+  forall (St : Type) (rule : block_rule St) (rule2 : block_rule2 St) (store : Z -> Z) (b b1 b2 : nat),
+  step_writes_only (lift_step (step_block rule store b)) (fun _ => False) /\
+  step_writes_only (lift_step (step_block2d rule2 store b1 b2)) (fun _ => False) /\
+  (forall (h0 : heap (list Z)) ca, ca < length h0 -> forall s0 T,
+     match evolve_fixed [] (step_block rule store b) s0 (h_get h0 ca) T with
+     | Ok (s', out) => exists w, heap_evolve_fixed [] (lift_step (step_block rule store b)) h0 ca s0 T
+                                 = Ok (s', h0 ++ [w; out], S (length h0))
+     | Raise e => heap_evolve_fixed [] (lift_step (step_block rule store b)) h0 ca s0 T = Raise e
+     end) /\
+  (forall (h0 : heap grid2) ca, ca < length h0 -> forall s0 T,
+     match evolve_fixed [] (step_block2d rule2 store b1 b2) s0 (h_get h0 ca) T with
+     | Ok (s', out) => exists w, heap_evolve_fixed [] (lift_step (step_block2d rule2 store b1 b2)) h0 ca s0 T
+                                 = Ok (s', h0 ++ [w; out], S (length h0))
+     | Raise e => heap_evolve_fixed [] (lift_step (step_block2d rule2 store b1 b2)) h0 ca s0 T = Raise e
+     end).
+Proof.
+  intros St rule rule2 store b b1 b2. split; [apply lift_step_writes_nothing|]. split; [apply lift_step_writes_nothing|].
+  split.
+  - intros h0 ca Hca. exact (heap_fixed_refines St (list Z) [] (step_block rule store b) h0 ca Hca).
+  - intros h0 ca Hca. exact (heap_fixed_refines (St * bool) grid2 [] (step_block2d rule2 store b1 b2) h0 ca Hca).
+Qed.
+
+(* the aliasing engines violate the statements (steps that write nowhere): *)
+(* `array = cellular_automaton`: the caller's object has changed after the call *)
+Theorem C05_heap_inplace_refuted :
+  exists (h0 : heap nat) (ca : nat) x hr rid,
+    step_writes_only (lift_step inc_step) (fun _ => False) /\
+    heap_evolve_inplace 0 (lift_step inc_step) h0 ca tt 3 = Ok (x, hr, rid) /\
+    h_get hr ca <> h_get h0 ca.
+Proof. exact inplace_refuted. Qed.
+
+(* the result is the caller's object itself: not a new object *)
+Theorem C05_heap_view_refuted :
+  exists (h0 : heap nat) (ca : nat) x hr rid,
+    step_writes_only (lift_step inc_step) (fun _ => False) /\
+    heap_evolve_returns_view 0 (lift_step inc_step) h0 ca tt 3 = Ok (x, hr, rid) /\
+    rid = ca /\ rid < length h0 /\ h_get hr ca <> h_get h0 ca.
+Proof. exact returns_view_refuted. Qed.
+
+(* non-vacuity: a rule object that holds a reference to ANOTHER array (id 1) and writes into it at every call,
+   like ReversibleRule's previous-state vector: the frame condition holds with W = {1}; after the call object 1
+   has changed, the caller's object (id 0) is intact and the result is the new object 3 *)
+Example C05_nonvacuous_heap :
+  let h0 : heap (list Z) := [[[7; 7; 7; 7; 7]; [0; 0; 1; 0; 0]]; [[9; 9; 9; 9; 9]]]%Z in
+  let step := ref_step (remember_rule 1 [1; 1; 1]%Z 2%Z) store_id 1 in
+  step_writes_only step (fun id => id = 1) /\ 0 < length h0 /\ ~ (0 = 1) /\
+  exists hr,
+    heap_evolve_fixed [] step h0 0 tt 3 = Ok (tt, hr, 3) /\
+    h_get hr 0 = h_get h0 0 /\
+    h_get hr 1 = [[0; 1; 1; 1; 0]]%Z /\ h_get hr 1 <> h_get h0 1 /\
+    h_get hr 3 = (h_get h0 0 ++ [[0; 1; 1; 1; 0]; [1; 0; 1; 0; 1]])%Z.
+Proof.
+  cbv zeta. split; [apply ref_step_frame; apply remember_rule_frame|]. split; [cbn; lia|]. split; [discriminate|].
+  eexists. split; [vm_compute; reflexivity|]. split; [reflexivity|]. split; [reflexivity|]. split; [discriminate|reflexivity].
+Qed.
+
+Print Assumptions C05_heap_input_unchanged.
+Print Assumptions C05_heap_input_unchanged_dynamic.
+Print Assumptions C05_heap_refines_engine.
+Print Assumptions C05_heap_refines_engine_dynamic.
+Print Assumptions C05_heap_plain_1d.
+Print Assumptions C05_heap_plain_2d.
+Print Assumptions C05_heap_block_steps.
+Print Assumptions C05_heap_inplace_refuted.
+Print Assumptions C05_heap_view_refuted.
